@@ -35,7 +35,7 @@ from vlib.core import sx
 
 META = {
     "level": "proof",
-    "tables": ["GenEnums"],
+    "tables": ["GenEnums", "GenConst"],
     "files": ["asyncfix/connection.py", "asyncfix/journaler.py", "asyncfix/codec.py", "asyncfix/session.py"],
     "rule": "exhaustive journals up to length 2 over the slot alphabet, random journals up to length 8 (thorough 12) with "
             "slots in {3 application types, 6 session types, declined, hole, leftover of an earlier resend} x ALL (Begin, End) "
